@@ -30,14 +30,14 @@ def all_harnesses():
     for ln in range(0, 41):
         for mx in (1, 2, 4):
             core = ln in (0, 8, 9, 16, 17, 33) and mx in (1, 2)
-            hs.append(Harness(f"c13_step_synced_l{ln}_max{mx}", f"crate::c13::step_equiv(1, {ln}, 1, {mx}, true)", unwind=max(10, ln + 3),
+            hs.append(Harness(f"c13_step_synced_l{ln}_max{mx}", f"crate::c13::step_equiv(1, {ln}, 1, {mx}, true)", unwind=max(14, ln + 3),
                               unit="update_state(Synced)", shape={"mode": "synced", "len": ln, "max_size": mx}, core=core))
     for ln in range(0, 41):
         for mn in (0, 1, 2, 3):
             for ck in (True, False):
                 core = ln in (6, 7, 15, 22, 23, 31) and mn in (0, 2)
                 hs.append(Harness(f"c13_step_final_l{ln}_min{mn}_{'ck' if ck else 'nock'}",
-                                  f"crate::c13::step_equiv(2, {ln}, {mn}, 8, {str(ck).lower()})", unwind=max(10, ln + 3),
+                                  f"crate::c13::step_equiv(2, {ln}, {mn}, 8, {str(ck).lower()})", unwind=max(14, ln + 3),
                                   unit="update_state(FinalCheck)", shape={"mode": "final", "len": ln, "min_size": mn, "checksum": ck},
                                   core=core, timeout=1500))
     for split in (0, 7, 13):
@@ -50,4 +50,4 @@ def all_harnesses():
 
 
 def harnesses(tier, seed):
-    return fold(select(all_harnesses(), tier, seed, 10), 3)
+    return select(all_harnesses(), tier, seed, 10)
